@@ -41,11 +41,9 @@ oracle is this specification, matched the library on 9,260 cases including `E` e
    channels suffices) when `τ_L1 > 0` (L3).  A feeding share that is exactly 0 (jump ratio exactly 1 — the
    shipped data hold `J = 1.0` for L sub-shells of Z ≤ 15) requires nothing.
 5. **Zero share.**  When `V_s · ω_s` is exactly 0 (a jump ratio of exactly 1: the shipped data hold `J_K = 1.0` for
-   Z = 1..3 and `J = 1.0` for L sub-shells of Z ≤ 15) the text gives the product `CS_Photo · 0`: the value 0
-   where `CS_Photo` is defined and a failure where it is not.  The library does not consult `CS_Photo` in that
-   case and returns 0.0 without an error (finding: Z = 3, K, E = 900 keV, where `CS_Photo(3, E)` fails); the
-   theorems about `CS_FluorShell`/`CS_FluorLine` therefore carry the hypothesis `shareNonzeroB` and the full
-   statements are kept, refuted, as `…_stmt` (Props/C09).
+   Z = 1..3 and `J = 1.0` for L sub-shells of Z ≤ 15) nothing can fluoresce from that sub-shell and the product would be
+   0.0 — the value the library reserves for "error".  The expectation is a failure (`nonzero`): the share is reported
+   as unavailable, `CS_Photo` is not consulted.
 6. L-beta fails ("too low excitation energy") iff the member sum is exactly 0.
 
 ## The member list of L-beta
@@ -56,7 +54,7 @@ L3N6, L3N7, L3N4 (β15); L1M3 (β3), L1M2 (β4), L1M5 (β9), L1M4 (β10)`.  The 
 `L3N6, L3N7`); the jump-ratio code sums those 13 **plus `L3O4` and `L3O5`, the two members of the doublet slot
 `L3O45 = LB5` which is itself in the list** — a table giving rates to the doublet slot *and* to its members is
 counted twice here and once in the Kissel variant.  `lb_members_vs_names` / `lb_members_vs_kissel` (Props/C09)
-state the differences; the theorems `fluorline_LB` / `fluorline_jump_partial` are about the 15-entry list (in the
+state the differences; the theorems `fluorline_LB` / `fluorline_jump_spec` are about the 15-entry list (in the
 shipped data no element has a rate for `L3O4` or `L3O5`, so the three lists give the same numbers today).
 -/
 namespace Xrl
@@ -129,11 +127,15 @@ def vacancy (T : Tables α) (Z s : Int) (E : α) : Expect α :=
     | _, _, _ => .fails
   else .fails
 
-/-- `V_s · ω_s`: fluorescence photons of shell `s` per photo-absorption; fails below the edge of `s` -/
+/-- 0.0 is the error sentinel of the library: a result that is exactly zero is reported as a failure -/
+def nonzero (x : α) : Expect α := if deq x (0.0 : α) then .fails else .value x
+
+/-- `V_s · ω_s`: fluorescence photons of shell `s` per photo-absorption; fails below the edge of `s` and when the
+share is exactly zero (corner 5) -/
 def shellFactor (T : Tables α) (Z s : Int) (E : α) : Expect α :=
   if excited T Z s E = true then
     match vacancy T Z s E with
-    | .value V => if avail (FluorYield T Z s) = true then .value (V * fyield T Z s) else .fails
+    | .value V => if avail (FluorYield T Z s) = true then nonzero (V * fyield T Z s) else .fails
     | _ => .fails
   else .fails
 
@@ -146,12 +148,6 @@ def CS_FluorShell (T : Tables α) (Z shell : Int) (E : α) : Expect α :=
       | _ => .fails
     | _ => .fails
   else .fails
-
-/-- the share `V_s ω_s` is not exactly zero (corner 5); executable, evaluated by the driver -/
-def shareNonzeroB (T : Tables α) (Z s : Int) (E : α) : Bool :=
-  match shellFactor T Z s E with
-  | .value f => !(decide (deq f (0.0 : α)))
-  | _ => true
 
 /-- the shell whose vacancy a line (or the K-alpha, K-beta, L-alpha group) fills: K lines are the macros from
 `KL1` down to `KP5` (the last macro named `K…`), L1 lines `L1L2 … L1P5`, L2 lines `L2L3 … L2Q1`, L3 lines
